@@ -106,6 +106,12 @@ func (share *Share) Verify(ec elliptic.Curve, threshold int, vs Vs) bool {
 	var err error
 	modQ := common.ModInt(ec.Params().N)
 	v, t := vs[0], one // YRO : we need to have our accumulator outside of the loop
+	for j := 0; j <= threshold; j++ {
+		// point arithmetic panics on coordinates that are not on the curve
+		if vs[j] == nil || !vs[j].SetCurve(ec).ValidateBasic() {
+			return false
+		}
+	}
 	for j := 1; j <= threshold; j++ {
 		// t = k_i^j
 		t = modQ.Mul(t, share.ID)
